@@ -26,6 +26,7 @@ TICK = 0.5            # seconds per tick (dyadic: every time stamp is exact and 
 RULE_ORDER = ("once", "always", "update", "change", "never", "streak", "deck")
 VALUE_RULES = ("once", "always", "update", "change", "never")
 HDR = {"h": True, "t": 0, "v": ()}
+BLANK = -1                        # LogRules!Blank: an empty column of a record / the empty mapping as deck entry
 TLC_TIMEOUT = 8 * 3600            # slowness of a loaded machine must never become a verdict
 _count = itertools.count()
 _mods = {}
@@ -94,7 +95,7 @@ def parse_log(text, header):
             t = int(q) if q == int(q) else parts[0]
         except ValueError:
             t = parts[0]
-        vs = tuple(int(p) if p.lstrip("-").isdigit() else p for p in parts[1:])
+        vs = tuple(int(p) if p.lstrip("-").isdigit() else (BLANK if p == "" else p) for p in parts[1:])   # empty column
         out.append({"h": False, "t": t, "v": vs})
         i += 1
     return out, torn
@@ -165,7 +166,7 @@ class LogWorld:
         self.q[self.qfield].append(e)
 
     def push_d(self, e):
-        self.d.push(self.m["odict"]([("x", e), ("y", 1 - e)]))
+        self.d.push(self.m["odict"]() if e == BLANK else self.m["odict"]([("x", e), ("y", 1 - e)]))
 
     def bid(self, c):
         self.logger.desire = {"stop": self.G.STOP, "start": self.G.START}[c]
@@ -236,7 +237,7 @@ class LogWorld:
         return {"now": int(q) if q == int(q) else repr(self.store.stamp),
                 "val": {"a": {"x": self.a["x"], "y": self.a["y"]}, "b": {"x": self.b["x"]}},
                 "sq": tuple(self.q[self.qfield]),
-                "dq": tuple(e["x"] for e in self.d.deck),
+                "dq": tuple((e["x"] if len(e) else BLANK) for e in self.d.deck),
                 "status": status, "desire": desire,
                 "out": self.deltas()}
 
@@ -478,7 +479,7 @@ def random_history(rng, root):
                         w.write(s, f, v)
                         evs.append({"ev": "Write", "s": s, "f": f, "v": v})
                     elif c in ("S", "D"):
-                        v = rng.randint(0, 1)
+                        v = rng.randint(0, 1) if c == "S" else rng.choice([0, 1, BLANK])
                         (w.push_s if c == "S" else w.push_d)(v)
                         evs.append({"ev": "PushS" if c == "S" else "PushD", "v": v})
                     else:
